@@ -1,6 +1,7 @@
 import HcipyVerif.Model.Proto
 import HcipyVerif.Model.FftGrid
 import HcipyVerif.Model.FftIndex
+import HcipyVerif.Model.FftSelect
 
 /-!
 Line-protocol front end of the C01 model.
@@ -13,6 +14,13 @@ Line-protocol front end of the C01 model.
 * `imp fwd|bwd std|emu N M Mo δ z dT s w j` — the modelled pipeline applied to the unit impulse at
   `j`, every output sample as a monomial `c:t:r` = `c·exp(i(2π·t + r))`.
 * `sum fwd|bwd …` — the same from the defining sum (right-hand side of the theorems).
+* `select regular|separated|unstructured cart ndim none|fftgrid|regular|separated|unstructured fftCheaper`
+  — `make_fourier_transform` (`makeFT detectLit`): input grid kind, whether it is Cartesian, the
+  number of dimensions (the output grid, when given, is Cartesian of the same dimension; `fftgrid` =
+  regular and the numerical part of `get_fft_parameters` succeeds), the planner's comparison
+  (`1` = not `fft > mft`).  Answer `ok fft|mft|naive` or `err value`.
+* `fftparams N δ Mo dT zeroT s` — `get_fft_parameters` on one axis (output spacing `2π·dT`, output
+  zero `2π·zeroT + s`).  Answer `ok q fov shiftT s` (the shift is `2π·shiftT + s`) or `err value`.
 -/
 namespace HcipyVerif.Driver.C01
 open HcipyVerif.Proto HcipyVerif.Fft
@@ -49,6 +57,28 @@ def parseCfg (dir cfg : String) (args : List String) : Option (Bool × RCfg × N
                                  w := PSum.ofRat w, emu := cfg == "emu" }, j)
     | _, _, _, _, _, _, _, _, _ => none
   | _ => none
+
+def parseKind? : String → Option GridKind
+  | "regular" => some .regular
+  | "separated" => some .separated
+  | "unstructured" => some .unstructured
+  | _ => none
+
+def parseBool? : String → Option Bool
+  | "0" => some false
+  | "1" => some true
+  | _ => none
+
+/-- the `out` token of `select`, for an input of dimension `ndim` -/
+def parseOutReq? (ndim : Nat) : String → Option (Option OutReq)
+  | "none" => some none
+  | "fftgrid" => some (some ⟨⟨.regular, true, ndim⟩, true⟩)
+  | s => (parseKind? s).map fun k => some ⟨⟨k, true, ndim⟩, false⟩
+
+def showMethod : Method → String
+  | .fft => "fft"
+  | .mft => "mft"
+  | .naive => "naive"
 
 def step (st : St) : List String → St × String
   | ["plan", ns, ds, zs, qs, fs, ss] =>
@@ -92,6 +122,23 @@ def step (st : St) : List String → St × String
         else (List.range g.N).map fun k =>
           sumBackward PSum.turns PSum.rad g (PSum.ofRat g.dT) (PSum.impulse j) k
       (st, "ok " ++ ";".intercalate (outs.map showPSum))
+  | ["select", kind, cart, ndim, out, cheaper] =>
+    match parseKind? kind, parseBool? cart, parseNat? ndim, parseBool? cheaper with
+    | some kind, some cart, some ndim, some cheaper =>
+      match parseOutReq? ndim out with
+      | none => (st, "bad-op")
+      | some o =>
+        match makeFT detectLit ⟨kind, cart, ndim⟩ o cheaper with
+        | .ok c => (st, "ok " ++ showMethod c.method)
+        | .error e => (st, "err " ++ e)
+    | _, _, _, _ => (st, "bad-op")
+  | ["fftparams", N, d, Mo, dT, zT, s] =>
+    match parseNat? N, parseRat? d, parseNat? Mo, parseRat? dT, parseRat? zT, parseRat? s with
+    | some N, some d, some Mo, some dT, some zT, some s =>
+      match getFftParameters ⟨N, d⟩ ⟨Mo, dT, zT, s⟩ with
+      | none => (st, "err value")
+      | some p => (st, s!"ok {showRat p.q} {showRat p.fov} {showRat p.shiftT} {showRat p.s}")
+    | _, _, _, _, _, _ => (st, "bad-op")
   | _ => (st, "bad-op")
 
 end HcipyVerif.Driver.C01
